@@ -17,7 +17,7 @@ from sx.shims import patched
 ID = "C47"
 MANIFEST = {
     "technique": "bounded model checking with solver-decided choice (SX engine): what the server answers (a good tarball, a truncated one, one that is not an archive, an HTTP error, 304 Not Modified; with and without ETag / Last-Modified headers), whether a previous tree exists, and the index of the file operation at which the sync stops (directory creation, the unpacking subprocess, every rename, the header files) are symbolic selectors; urllib.request.urlopen as seen by pkgcore.sync.http is a stub serving the chosen answer, os and subprocess as seen by pkgcore.sync.tar / http are wrapped to count operations and stop at the chosen one (the real tar(1) does the unpacking); the engine forks over every feasible combination, runs the real tar_syncer.sync on a scratch directory, inspects the repository path at the stop or after the failure, and then runs a second, undisturbed sync",
-    "level_text": "Bounded model checking, exhaustive within the bound (5 server answers x header forms x previous tree present/absent x every file-operation index): a sync that ends (success, failure or stop at any operation) leaves at the repository path the complete previous tree or the complete new tree; a failed download or unpack leaves the previous tree untouched; and a second sync with a good tarball then completes and installs the complete new tree. Selector-only; real code, real tar(1), real files; the network is a stub.",
+    "level_text": "Bounded model checking, exhaustive within the bound (5 server answers x header forms x previous tree present/absent x every file-operation index): a sync that ends (success, failure or stop at any operation) leaves at the repository path the complete previous tree or the complete new tree; a failed download or unpack leaves the previous tree untouched; and a second sync with a good tarball (forced, or relying on the ETag / Last-Modified validators) then completes and installs the complete new tree, while a second sync whose download fails leaves a complete tree. Selector-only; real code, real tar(1), real files; the network is a stub.",
     "level_note": "selector-only harness (labelled as such). Stops model the death of the process: the atexit clean-ups the syncer registers do not run.",
 }
 META = {
@@ -31,6 +31,7 @@ META = {
 }
 
 ANSWERS = ["good", "truncated", "garbage", "http-500", "not-modified"]
+SECOND = ["good, forced", "good, not forced", "http-500"]
 MAXOP = 11
 
 
@@ -128,7 +129,7 @@ class SyncHarness(Harness):
         return False
 
     def setup(self, eng):
-        return {"answer": self.ob["answer"], "headers": eng.int("headers", 0, 2), "previous": eng.bool("previous_tree_exists"), "stop_at": eng.int("stop_at", 0, MAXOP)}
+        return {"answer": self.ob["answer"], "headers": eng.int("headers", 0, 2), "previous": eng.bool("previous_tree_exists"), "stop_at": eng.int("stop_at", 0, MAXOP), "second": eng.int("second_sync", 0, len(SECOND) - 1)}
 
     def body(self, inp):
         c = core.fix(inp) if core.ENG is not None else inp
@@ -160,7 +161,7 @@ class SyncHarness(Harness):
 
                 return _open
 
-            def run_sync(answer_now, counter):
+            def run_sync(answer_now, counter, force=True):
                 syncer = sync_tar.tar_syncer(basedir, "tar+http://example.invalid/repo-snapshot.tar.bz2")
                 req = type("R", (), {"urlopen": staticmethod(urlopen(answer_now)), "Request": sync_http.urllib.request.Request})
                 fake_urllib = type("U", (), {"request": req, "error": urllib.error})
@@ -169,7 +170,7 @@ class SyncHarness(Harness):
                     binds += [(sync_tar, "os", FaultyOs(counter)), (sync_tar, "subprocess", FaultySubprocess(counter)), (sync_http, "os", FaultyOs(counter))]
                 with patched(*binds):
                     try:
-                        return "ok" if syncer.sync(force=True) else "refused"
+                        return "ok" if syncer.sync(force=force) else "refused"
                     except Crash:
                         return "stopped"
                     except sync_base.SyncError as e:
@@ -184,7 +185,8 @@ class SyncHarness(Harness):
                 for f in reversed(exit_funcs):
                     f()
             exit_funcs.clear()
-            second = run_sync("good", None)
+            sec = SECOND[c.get("second", 0)]
+            second = run_sync("http-500" if sec == "http-500" else "good", None, force=sec == "good, forced")
             after_second = tree_of(basedir)
         finally:
             shutil.rmtree(td, ignore_errors=True)
@@ -199,9 +201,14 @@ class SyncHarness(Harness):
             problems.append(f"a failed sync ({answer}) changed the previous tree")
         if first == "ok" and answer == "good" and after_first != new_tree:
             problems.append("a successful sync did not install the new tree")
-        if second != "ok" or after_second != new_tree:
-            problems.append(f"the follow-up sync did not complete ({second}; tree {'ok' if after_second == new_tree else 'wrong'})")
-        return {"answer": answer, "headers": sorted(headers), "previous": c["previous"], "stop_at": c["stop_at"], "stopped_in": counter.hit, "operations": counter.trace, "first": first, "second": second, "problems": problems}
+        if sec == "http-500":
+            # the follow-up download fails: whatever the first sync left (or the recovery restores) must be a complete tree
+            ok_trees = [new_tree, old] + ([None, {}] if old is None else [])
+            if second != "SyncError" or after_second not in ok_trees:
+                problems.append(f"after a failing follow-up sync ({second}) the repository path holds neither tree: {sorted(after_second) if after_second is not None else None}")
+        elif second != "ok" or after_second != new_tree:
+            problems.append(f"the follow-up sync ({sec}) did not complete ({second}; tree {'ok' if after_second == new_tree else 'wrong'})")
+        return {"answer": answer, "headers": sorted(headers), "previous": c["previous"], "stop_at": c["stop_at"], "stopped_in": counter.hit, "operations": counter.trace, "first": first, "second_kind": sec, "second": second, "problems": problems}
 
     def prop(self, inp, obs):
         return not obs["problems"]
